@@ -236,7 +236,9 @@ def alpha(root, cfg, ignore=("python_client.log",)):
                     placed = True
             elif parts[0] == "refs" and len(parts) > 2 and parts[1] == "cids":
                 h = "".join(parts[2:])
-                if _is_hex(h) and len(h) == dl and parts[2:] == cfg.shard(h):
+                # the list of a cid lives at shard(cid) for the cid string AS GIVEN (tag_object accepts any
+                # string, e.g. an upper-case spelling of a digest)
+                if _is_hex(h.lower()) and len(h) == dl and parts[2:] == cfg.shard(h):
                     out["cidrefs"][h] = b.decode("utf-8", "replace").split("\n")
                     # a well-formed list ends with a newline: last element is ''
                     if out["cidrefs"][h] and out["cidrefs"][h][-1] == "":
